@@ -3,13 +3,15 @@ import GdVerif.Run.Valve
 import GdVerif.Run.GenValve
 import GdVerif.Run.Gs1
 import GdVerif.Run.GenGs1
+import GdVerif.Run.Gs2
+import GdVerif.Run.GenGs2
 /-
   gdmodel: the model behind a line protocol.
     gdmodel run        : reads `<id> <entry> <args…>` lines on stdin, prints `<id> <outcome>`
 -/
 open Gd Gd.Run
 
-def allEntries : List (String × (List String → String)) := readerEntries ++ valveEntries ++ gs1Entries
+def allEntries : List (String × (List String → String)) := readerEntries ++ valveEntries ++ gs1Entries ++ gs2Entries
 
 def runLine (line : String) : String :=
   match line.trimAscii.toString.splitOn " " with
@@ -38,6 +40,7 @@ def main (args : List String) : IO UInt32 := do
       let lines := match suite with
         | "valve" => genValve seed n
         | "gs1" => genGs1 seed n
+        | "gs2" => genGs2 seed n
         | _ => []
       for l in lines do IO.println l
       return 0
